@@ -15,9 +15,15 @@ impl_syscall!(AcceptSyscallFacade, IoUringAcceptSyscall, NioAcceptSyscall, RawAc
     accept(fd: c_int, address: *mut sockaddr, address_len: *mut socklen_t) -> c_int
 );
 
-impl_facade!(AcceptSyscallFacade, AcceptSyscall,
+impl_facade!(AcceptStateFacade, AcceptSyscall,
     accept(fd: c_int, address: *mut sockaddr, address_len: *mut socklen_t) -> c_int
 );
+
+impl_new_fd!(NewAcceptSyscall, AcceptSyscall,
+    accept(fd: c_int, address: *mut sockaddr, address_len: *mut socklen_t) -> c_int
+);
+
+type AcceptSyscallFacade<I> = NewAcceptSyscall<AcceptStateFacade<I>>;
 
 impl_io_uring_read!(IoUringAcceptSyscall, AcceptSyscall,
     accept(fd: c_int, address: *mut sockaddr, address_len: *mut socklen_t) -> c_int
